@@ -1,9 +1,9 @@
 ---- MODULE MC_EKF ----
 (* constants shared by the filter configurations (C03-C07, C09, C13, C16) *)
 EXTENDS Formak
-SensShapes == {<<1>>, <<2>>, <<3>>, <<1, 2>>, <<2, 1>>, <<2, 2>>, <<1, 3>>, <<1, 1, 2>>}
-cShapes == {[nS |-> a, nC |-> b, nK |-> c, sens |-> s] : a \in 1..3, b \in 0..2, c \in 0..2, s \in SensShapes}
-cShapesNoSens == {[nS |-> a, nC |-> b, nK |-> c, sens |-> <<>>] : a \in 1..3, b \in 0..2, c \in 0..2}
+SensShapes == {<<1>>, <<2>>, <<3>>, <<4>>, <<1, 2>>, <<2, 1>>, <<2, 2>>, <<1, 3>>, <<1, 1, 2>>, <<1, 1, 1, 1>>, <<2, 4>>}
+cShapes == {[nS |-> a, nC |-> b, nK |-> c, sens |-> s] : a \in 1..4, b \in 0..2, c \in 0..2, s \in SensShapes}
+cShapesNoSens == {[nS |-> a, nC |-> b, nK |-> c, sens |-> <<>>] : a \in 1..4, b \in 0..3, c \in 0..2}
 cShapesAll == cShapes \cup cShapesNoSens
 cShapesC12 == {[nS |-> a, nC |-> b, nK |-> c, sens |-> s] : a \in 1..2, b \in 0..2, c \in 0..1, s \in {<<>>, <<2>>, <<1, 2>>, <<1, 1, 2>>}}
 cActsNone == {}
@@ -42,8 +42,8 @@ cSNoise == <<RI(1), RI(3), RI(2), RI(5), RI(4)>>
 cKsNone == {NoGate}
 cKsAll == {NoGate, RI(1), RI(3), RI(5), RQ(1,2), RQ(322,125), RQ(1,256)}
 cKsOn == {RI(1), RI(3), RI(5), RQ(1,2), RQ(322,125), RQ(1,256)}
-cPDiag == <<1, 2, 3, 4>>
-cPVec == <<1, 0, -1, 2>>
+cPDiag == <<1, 2, 3, 4, 2>>
+cPVec == <<1, 0, -1, 2, 1>>
 cZDeltas == <<RI(1), RI(-2), RQ(1,2), RI(5), RI(-9), RI(40), RI(0), RI(3)>>
 cNoSeq == <<>>
 cActsJac == {"JacEval", "SensEval"}
